@@ -207,6 +207,13 @@ fn grid1(en: &Entry) -> Vec<String> {
         ]
     };
     let mut out: Vec<String> = general.into_iter().map(|s| s.to_string()).collect();
+    // arguments that are themselves operations (a function that looks at the shape of its argument instead of its value:
+    // ln of a power taken apart, sqrt of a square cancelled ...), with negative bases under even powers
+    if int_only {
+        out.extend(["((0-3)^2)", "((0-2)^4)", "((0-4)²)", "pow(0-5,2)", "((1-3)^0)", "(3*3)", "(81/9)", "(2^10)", "(5-(0-4))", "abs(0-16)", "(7%4)"].iter().map(|s| s.to_string()));
+    } else {
+        out.extend(["((0-3)^2)", "((0-2)^4)", "((0-4)²)", "pow(0-5,2)", "((1-3)^0)", "((0-1.5)^2)", "(3*3)", "(81/9)", "(2^10)", "(0.5*0.5)", "(5-(0-4))", "abs(0-16)", "sqrt(16)", "(0-(0-2.25))", "(7%4)"].iter().map(|s| s.to_string()));
+    }
     if !int_only {
         // function-specific edges (kept away from the other functions: ln next to 1 is too ill-conditioned for a double
         // reference to judge a decimal argument)
@@ -240,7 +247,18 @@ fn parse_arg(s: &str) -> f64 {
         // a flat sum of ones: its value is the number of terms
         return t.split('+').count() as f64;
     }
-    t.parse::<f64>().unwrap_or(f64::NAN)
+    if let Ok(v) = t.parse::<f64>() {
+        return v;
+    }
+    // an argument spelled as a compound expression: its value by the exact f64 reference (all such spellings in the grid
+    // are exact in binary and in decimal)
+    match crate::grammar::recognise(Ev::F64, s).accepted() {
+        Some(e) => match f64r::eval(e, 0.0) {
+            f64r::RF::Exact(v) => v,
+            _ => f64::NAN,
+        },
+        None => f64::NAN,
+    }
 }
 
 /// every eval_complex function name and alias (arity 1 and 2), ^, superscripts, ° and rad over real (both signs),
@@ -427,6 +445,10 @@ impl Prop for C10Prop {
             return Ok(());
         }
         let args: Vec<f64> = case.aux[1..].iter().map(|s| parse_arg(s)).collect();
+        if args.iter().any(|a| a.is_nan()) {
+            sc.exclude("argument text has no exact reference value");
+            return Ok(());
+        }
         let o = match eval_normal(sc, ev, &case.input, &case.ph) {
             Some(o) => o,
             None => return Ok(()),
